@@ -144,6 +144,18 @@ let handle (line : string) : string =
     let w = M.reset_after (nat n) (nat k) (nat p) q in
     Printf.sprintf "resetpoll offset=%d replayed=%s" (int_of_n (M.N.of_nat w.M.w_new.M.d_off))
       (if M.replayed_all (nat n) w then "all" else "lost")
+  | "genredkg" :: n :: rest ->
+    (* genredkg <n> {event round threshold np {part}*}* : the board log as the generator sees it *)
+    let open Fsm_io in
+    let c = { a = Array.of_list rest; i = 0 } in
+    let log = rep (int_of_string n) (fun () ->
+        let ev = st_in (next c) in let r = next_n c in let thr = next_z c in
+        let np = next_int c in let parts = rep np (fun () -> next_n c) in
+        fun tag -> { M.gm_event = ev; gm_round = r; gm_tag = tag; gm_threshold = thr; gm_parts = parts }) in
+    let log = List.mapi (fun i f -> f (n_of_int i)) log in
+    let f = M.gen_redkg log in
+    Printf.sprintf "genredkg id=%s thr=%s parts=%s kept=%s" (pn f.M.gf_id) (pz f.M.gf_threshold)
+      (String.concat "," (List.map pn f.M.gf_parts)) (String.concat "," (List.map (fun m -> pn m.M.gm_tag) f.M.gf_msgs))
   | "c04lock" :: _ -> "c04lock waits=" ^ (if M.tick_waits_during_command then "true" else "false")
   | "c04gap" :: _ -> "c04gap saved-without-password=" ^ (if M.gap_saves_without_password then "true" else "false")
   | "c04rounds" :: t1 :: m1 :: t2 :: m2 :: _ ->
